@@ -1,7 +1,10 @@
 // C18 harness: histories of create / update / delete / rename on the real
 // filer.Filer + FilerServer.AtomicRenameEntry over a real embedded store
 // (leveldb2 by default; leveldb, leveldb3 as variants).  After EVERY operation the
-// whole store is dumped (path, isDir, perm, uid, chunk ids) with the error class.
+// whole store is dumped (path, isDir, perm, uid, chunk ids, extended attributes) with the
+// error class.  Updates go through FilerServer.UpdateEntry, renames are given to
+// AtomicRenameEntry as raw request strings (also unclean directories and names that are
+// not plain entry names).
 package main
 
 import (
@@ -40,7 +43,21 @@ func coqPath(p string) string {
 	return "[" + strings.Join(xs, "; ") + "]"
 }
 
+func coqExt(x []extKV) string {
+	xs := make([]string, len(x))
+	for i, kv := range x {
+		xs[i] = "(" + hx.Str(kv.k) + ", " + hx.Bytes(kv.v) + ")"
+	}
+	return "[" + strings.Join(xs, "; ") + "]"
+}
+
 func coqEnt(e ent) string {
+	if len(e.ext) > 0 {
+		if e.dir {
+			return fmt.Sprintf("(DX %s %s %s)", hx.N(uint64(e.perm)), hx.N(uint64(e.uid)), coqExt(e.ext))
+		}
+		return fmt.Sprintf("(FX %s %s %s %s)", hx.N(uint64(e.perm)), hx.N(uint64(e.uid)), hx.NList(e.chunks), coqExt(e.ext))
+	}
 	if e.dir {
 		return fmt.Sprintf("(D %s %s)", hx.N(uint64(e.perm)), hx.N(uint64(e.uid)))
 	}
@@ -50,21 +67,22 @@ func coqEnt(e ent) string {
 func coqOp(o op) string {
 	switch o.kind {
 	case opCreate:
-		return fmt.Sprintf("Create %s %s %s", coqPath(o.path), coqEnt(o.e), hx.Bool(o.excl))
+		return fmt.Sprintf("P (Create %s %s %s)", coqPath(o.path), coqEnt(o.e), hx.Bool(o.excl))
 	case opUpdate:
-		return fmt.Sprintf("Update %s %s", coqPath(o.path), coqEnt(o.e))
+		return fmt.Sprintf("P (Update %s %s)", coqPath(o.path), coqEnt(o.e))
 	case opDelete:
-		return fmt.Sprintf("Delete %s %s %s", coqPath(o.path), hx.Bool(o.rec), hx.Bool(o.ign))
+		return fmt.Sprintf("P (Delete %s %s %s)", coqPath(o.path), hx.Bool(o.rec), hx.Bool(o.ign))
 	}
-	return fmt.Sprintf("Rename %s %s %s %s", coqPath(o.oldDir), coqName(o.oldNm), coqPath(o.newDir), coqName(o.newNm))
+	// the raw request strings: the model cleans the directories and checks the names itself
+	return fmt.Sprintf("RR %s %s %s %s", hx.Str(o.oldDir), hx.Str(o.oldNm), hx.Str(o.newDir), hx.Str(o.newNm))
 }
 
 func canonOp(o op) string {
 	switch o.kind {
 	case opCreate:
-		return fmt.Sprintf("C%s=%v/%o/%d/%v/x%v", o.path, o.e.dir, o.e.perm, o.e.uid, o.e.chunks, o.excl)
+		return fmt.Sprintf("C%s=%v/%o/%d/%v/%v/x%v", o.path, o.e.dir, o.e.perm, o.e.uid, o.e.chunks, o.e.ext, o.excl)
 	case opUpdate:
-		return fmt.Sprintf("U%s=%v/%o/%d/%v", o.path, o.e.dir, o.e.perm, o.e.uid, o.e.chunks)
+		return fmt.Sprintf("U%s=%v/%o/%d/%v/%v", o.path, o.e.dir, o.e.perm, o.e.uid, o.e.chunks, o.e.ext)
 	case opDelete:
 		return fmt.Sprintf("D%s/r%v/i%v", o.path, o.rec, o.ign)
 	}
@@ -90,11 +108,21 @@ func mkF(p string, tag int) op {
 	case 1:
 		e.chunks = []uint64{uint64(tag), uint64(tag) + 100}
 	}
+	switch tag % 4 {
+	case 1:
+		e.ext = []extKV{{"k", []byte{byte(tag), 7}}}
+	case 3:
+		e.ext = []extKV{{"k", []byte{}}, {"k2", []byte{byte(tag)}}}
+	}
 	return op{kind: opCreate, path: p, e: e}
 }
 func mkD(p string, tag int) op {
 	perms := []uint32{0755, 0700, 0, 0555}
-	return op{kind: opCreate, path: p, e: ent{dir: true, perm: perms[tag%len(perms)], uid: uint32(tag)}}
+	e := ent{dir: true, perm: perms[tag%len(perms)], uid: uint32(tag)}
+	if tag%4 == 2 {
+		e.ext = []extKV{{"d", []byte{byte(tag)}}}
+	}
+	return op{kind: opCreate, path: p, e: e}
 }
 func mkDel(p string, rec, ign bool) op { return op{kind: opDelete, path: p, rec: rec, ign: ign} }
 func dirName(p string) (string, string) {
@@ -111,13 +139,19 @@ func mkRen(from, to string) op {
 }
 
 // all paths of depth 1..d over {a,b}
-func universe(d int) []string {
+func universe(d int) []string { return universeOver(d, []string{"a", "b"}) }
+
+// names of which one is a string prefix of the other: a regression of the own-subtree check
+// from "oldPath + /" to a plain string prefix (or the reverse) is visible only on these
+var prefixNames = []string{"a", "ab", "a."}
+
+func universeOver(d int, names []string) []string {
 	var out []string
 	level := []string{""}
 	for i := 0; i < d; i++ {
 		var next []string
 		for _, p := range level {
-			for _, n := range []string{"a", "b"} {
+			for _, n := range names {
 				next = append(next, p+"/"+n)
 			}
 		}
@@ -150,14 +184,47 @@ var trees = [][]op{
 	{mkF("/a/a/a/b", 1), mkF("/a/a/b", 2), mkD("/b", 3)},
 }
 
+// start trees over the prefix names {a, ab, a.}
+var treesP = [][]op{
+	{mkF("/a/ab", 1), mkD("/ab/a.", 2), mkF("/a./a", 3)},
+	{mkF("/a/a/a", 1), mkD("/ab", 2), mkF("/a.", 3)},
+}
+
+// the start tree and the rename sources / targets of the bucket cases (CanRename / DetectBucket).
+// A bucket directory /buckets/<b> itself is never deleted or moved: that would call the master.
+var treeB = []op{mkF("/buckets/a/a", 1), mkD("/buckets/a/b", 2), mkF("/buckets/b/a", 3), mkF("/b/a", 4)}
+var bucketSrc = []string{"/buckets/a/a", "/buckets/a/b", "/buckets/b/a", "/b/a", "/b"}
+var bucketDst = []string{"/buckets/a/c", "/buckets/b/c", "/buckets/b/a", "/buckets/c", "/c", "/b/c", "/buckets/a/b/c", "/buckets/c/d"}
+
 // witnesses of known finding 0 (a directory renamed onto a non-empty directory)
 var witnesses = [][]op{
 	// target is an ancestor of the source: returns OK, /a/a/b (uid 1) and the directory /a/a are lost
 	{mkF("/a/a/a/b", 1), mkF("/a/a/b", 2), mkRen("/a/a", "/a")},
 	// type conflict half-way: returns an error, but /a/a is already moved and /b overwritten
 	{mkF("/a/a", 1), mkF("/a/b", 2), mkF("/b/a", 3), mkD("/b/b", 4), mkRen("/a", "/b")},
+	// target is an ancestor of the source: fails with ENotEmpty and /a/b/a, a directory before, is now the file
+	{mkD("/a/b/a", 1), mkF("/a/b/b/a", 2), mkRen("/a/b", "/a")},
 	// the repaired defect: a directory renamed into itself / into a descendant is refused
 	{mkF("/a/b", 1), mkRen("/a", "/a/b"), mkRen("/a", "/a/a"), mkRen("/a", "/a/b/a")},
+	// a benign merge (inside the wide, outside the narrow trigger): the source laid over the target
+	{mkF("/a/a", 1), mkF("/a/b/a", 2), mkF("/b/a", 3), mkF("/b/b/b", 4), mkD("/b/c", 5), mkRen("/a", "/b")},
+}
+
+func rawRen(od, on, nd, nn string) op {
+	return op{kind: opRename, oldDir: od, oldNm: on, newDir: nd, newNm: nn}
+}
+
+// raw rename requests on the tree {/a/x}: the requests the audit ran on the code before the
+// repair of AtomicRenameEntry, and their relatives (each is one case: tree, request, request again)
+var rawRequests = []op{
+	rawRen("/", "a", "/", "a/b"), rawRen("/", "a", "//a", "b"), rawRen("/", "a", "/a/../a", "b"),
+	rawRen("/a", "", "/a/x2", "y"), rawRen("/", "a", "/a/", "b"), rawRen("/", "a", "/./a", "b"),
+	rawRen("/", "a", "a", "b"), rawRen("/", "a", "/b/../a/x/..", "c"), rawRen("//", "a", "/", "b"),
+	rawRen("/a/", "x", "/a/./", "y"), rawRen("/a", "x/..", "/", "z"), rawRen("/a", "..", "/", "z"),
+	rawRen("/a", ".", "/", "z"), rawRen("/", "a", "/", "."), rawRen("/", "a", "/", ".."),
+	rawRen("/", "a", "/b", "../c"), rawRen("/", "a", "", "b"), rawRen("", "a", "/c/", "d"),
+	rawRen("/..", "a", "/../c/d/..", "a"), rawRen("/", "a", "/ab", "x"), rawRen("/", "a", "/a.", "x"),
+	rawRen("a/", "x", "a", "x"), rawRen("/", "/a", "/", "b"), rawRen("/", "a/", "/", "b"),
 }
 
 func retag(seq []op) []op {
@@ -177,16 +244,67 @@ func retag(seq []op) []op {
 
 // ---------- random histories ----------
 
+var allNames = []string{"a", "b", "a", "b", "ab", "a."}
+
 func pickPath(r *hx.Rng, existing []string, depth int) string {
 	if len(existing) > 0 && r.Chance(7, 10) {
 		p := r.PickStr(existing)
 		if r.Chance(1, 4) && len(splitPath(p)) < 4 {
-			p = p + "/" + r.PickStr([]string{"a", "b"})
+			p = p + "/" + r.PickStr(allNames)
 		}
 		return p
 	}
+	if r.Chance(1, 4) {
+		return r.PickStr(universeOver(2, prefixNames))
+	}
 	u := universe(depth)
 	return r.PickStr(u)
+}
+
+// a different spelling of a directory (most of them clean to the same path)
+func mangleDir(r *hx.Rng, d string) string {
+	switch r.Intn(9) {
+	case 0:
+		return "/" + d
+	case 1:
+		return d + "/"
+	case 2:
+		return strings.Replace(d, "/", "/./", 1)
+	case 3:
+		return d + "/b/.."
+	case 4:
+		return strings.TrimPrefix(d, "/")
+	case 5:
+		return "/.." + d
+	case 6:
+		return d + "/."
+	case 7:
+		return d + "/.." // a different directory
+	default:
+		return strings.Replace(d, "/", "//", -1)
+	}
+}
+
+// mostly not a plain entry name
+func mangleName(r *hx.Rng, n string) string {
+	switch r.Intn(8) {
+	case 0:
+		return ""
+	case 1:
+		return "."
+	case 2:
+		return ".."
+	case 3:
+		return n + "/b"
+	case 4:
+		return "/" + n
+	case 5:
+		return n + "/"
+	case 6:
+		return "../" + n
+	default:
+		return n + "." // plain
+	}
 }
 
 func randomOp(r *hx.Rng, existing []string, j int) op {
@@ -225,29 +343,106 @@ func randomOp(r *hx.Rng, existing []string, j int) op {
 	default:
 		from := pickPath(r, existing, 3)
 		var to string
-		switch r.Intn(4) {
+		switch r.Intn(5) {
 		case 0:
 			to = pickPath(r, existing, 3)
 		case 1:
 			to = r.PickStr(universe(3))
 		case 2: // into an existing directory-ish path
-			to = pickPath(r, existing, 2) + "/" + r.PickStr([]string{"a", "b"})
+			to = pickPath(r, existing, 2) + "/" + r.PickStr(allNames)
+		case 3: // a sibling whose name extends / shortens the source's name
+			if r.Bool() {
+				to = from + r.PickStr([]string{"b", "."})
+			} else {
+				to = from + r.PickStr([]string{"b", "."}) + "/" + r.PickStr(allNames)
+			}
 		default: // ancestor / descendant of the source
 			segs := splitPath(from)
 			if r.Bool() && len(segs) > 1 {
 				to = "/" + strings.Join(segs[:r.Range(1, len(segs)-1)], "/")
 			} else {
-				to = from + "/" + r.PickStr([]string{"a", "b"})
+				to = from + "/" + r.PickStr(allNames)
 			}
 		}
-		return mkRen(from, to)
+		o := mkRen(from, to)
+		if r.Chance(1, 6) { // the malformed stream
+			if r.Chance(7, 10) {
+				if r.Bool() {
+					o.oldDir = mangleDir(r, o.oldDir)
+				}
+				if r.Bool() {
+					o.newDir = mangleDir(r, o.newDir)
+				}
+			}
+			if r.Chance(4, 10) {
+				if r.Bool() {
+					o.oldNm = mangleName(r, o.oldNm)
+				} else {
+					o.newNm = mangleName(r, o.newNm)
+				}
+			}
+		}
+		return o
 	}
+}
+
+// what a rename meets, read off the previous dump (clean requests only), for the distribution
+func renameBucket(o op, rows []dumpRow, class string) string {
+	clean := func(d string) bool { return d == "/" || (strings.HasPrefix(d, "/") && !strings.HasSuffix(d, "/") && !strings.Contains(d, "//") && !strings.Contains(d, "/.")) }
+	plain := func(n string) bool { return n != "" && n != "." && n != ".." && !strings.Contains(n, "/") }
+	if !clean(o.oldDir) || !clean(o.newDir) || !plain(o.oldNm) || !plain(o.newNm) {
+		return "rename:malformed:" + class
+	}
+	join := func(d, n string) string {
+		if d == "/" {
+			return "/" + n
+		}
+		return d + "/" + n
+	}
+	src, dst := join(o.oldDir, o.oldNm), join(o.newDir, o.newNm)
+	var srcRow, dstRow *dumpRow
+	srcKids, dstKids := 0, 0
+	for i := range rows {
+		switch {
+		case rows[i].path == src:
+			srcRow = &rows[i]
+		case strings.HasPrefix(rows[i].path, src+"/"):
+			srcKids++
+		}
+		switch {
+		case rows[i].path == dst:
+			dstRow = &rows[i]
+		case strings.HasPrefix(rows[i].path, dst+"/"):
+			dstKids++
+		}
+	}
+	what := "file"
+	switch {
+	case srcRow == nil:
+		what = "missing"
+	case srcRow.e.dir && srcKids > 0:
+		what = "dir-with-children"
+	case srcRow.e.dir:
+		what = "empty-dir"
+	}
+	onto := "free"
+	switch {
+	case src == dst:
+		onto = "itself"
+	case dstRow != nil && dstRow.e.dir && dstKids > 0:
+		onto = "nonempty-dir"
+	case dstRow != nil && dstRow.e.dir:
+		onto = "empty-dir"
+	case dstRow != nil:
+		onto = "file"
+	}
+	return "rename:" + what + "->" + onto + ":" + class
 }
 
 func main() {
 	storeKind := flag.String("store", "leveldb2", "leveldb|leveldb2|leveldb3")
 	per := flag.Int("per", 250, "cases per shard (to place this shard in the exhaustive enumeration)")
-	goffset := flag.Int("goffset", 0, "added to the global case index (a large value skips the enumeration: random cases only)")
+	slice := flag.Int("slice", 0, "if > 0: this run takes the witnesses, then this many cases spread evenly over the enumeration (offset by the seed), then random cases")
 	out := hx.Flags("C18", 300)
 	w := newWorld(*storeKind)
 	defer w.close()
@@ -255,14 +450,33 @@ func main() {
 	u3 := opUniverse(universe(3)) // 14 paths: 56 + 196 ops
 	u2 := opUniverse(universe(2)) // 6 paths: 24 + 36 ops
 	u1 := opUniverse([]string{"/a", "/b", "/a/a", "/a/b"})
+	uP := opUniverse(universeOver(2, prefixNames)) // 12 paths: 48 + 144 ops
 
-	// the deterministic enumeration E (independent of the seed): witnesses, every single op on every
-	// start tree; thorough adds every pair (u2) on every tree and every triple (u1) on the empty tree
+	// the deterministic enumeration E (independent of the seed): witnesses, raw requests, bucket renames,
+	// every single op on every start tree; thorough adds every pair (u2) on every tree and every triple (u1)
+	// on the empty tree
 	type gen func() ([]op, string)
 	var E []gen
 	for _, wseq := range witnesses {
 		wseq := wseq
 		E = append(E, func() ([]op, string) { return wseq, "witness" })
+	}
+	nW := len(E)
+	for _, q := range rawRequests {
+		q := q
+		E = append(E, func() ([]op, string) { return []op{mkF("/a/x", 1), q, q}, "rawreq" })
+	}
+	for _, from := range bucketSrc {
+		for _, to := range bucketDst {
+			from, to := from, to
+			E = append(E, func() ([]op, string) { return append(append([]op{}, treeB...), mkRen(from, to)), "bucket" })
+		}
+	}
+	for _, t := range treesP {
+		for _, o := range uP {
+			t, o := t, o
+			E = append(E, func() ([]op, string) { return append(append([]op{}, t...), o), "exh1p" })
+		}
 	}
 	for _, t := range trees {
 		for _, o := range u3 {
@@ -289,18 +503,34 @@ func main() {
 		}
 	}
 	out.Extra["enumeration_size"] = len(E)
-	out.Rule = "case = history from the empty namespace, store dumped after every op. Global case index g = (seed mod 1000)*per + i. " +
-		"g < |E|: deterministic enumeration E = 3 witnesses, then every single op (create file/dir, delete rec/non-rec, rename p->q over the 14 paths of depth<=3 over {a,b}) after each of 5 start trees; " +
+	out.Rule = "case = history from the empty namespace, store dumped after every op; renames are raw AtomicRenameEntry requests. Global case index g = (seed mod 1000)*per + i. " +
+		"g < |E|: deterministic enumeration E = 5 witnesses, 24 raw requests (unclean directories, names with '/', '', '.', '..'), 40 renames in and out of /buckets/<b>, " +
+		"every single op over the 12 paths of depth<=2 over {a,ab,a.} after 2 start trees, then every single op (create file/dir, delete rec/non-rec, rename p->q over the 14 paths of depth<=3 over {a,b}) after each of 5 start trees; " +
 		"thorough adds every pair over the 6 paths of depth<=2 after each tree and every triple over {/a,/b,/a/a,/a/b} from empty. " +
+		"--slice n (the leveldb and leveldb3 variants): the witnesses, then n cases spread evenly over E, then random cases. " +
 		"g >= |E|: 2 of 5 cases a random pair/triple/quadruple from those universes after a random tree, 3 of 5 a random history of 5..25 ops " +
-		"(create 38%, update 8%, delete 17%, root ops 3%, rename 34%; 70% of paths picked among existing entries). " +
+		"(create 38%, update 8%, delete 17%, root ops 3%, rename 34%, one rename in 6 with mangled directories/names; 70% of paths picked among existing entries; names a,b,ab,a.). " +
 		"non-trivial = some op succeeded and the final store is not empty; distinct = canonical op list"
 
 	root := hx.NewRng(out.Seed)
 	shard := int(out.Seed % 1000)
 	for i := 0; i < out.N; i++ {
 		r := root.Fork()
-		g := *goffset + shard*(*per) + i
+		g := shard*(*per) + i
+		if *slice > 0 {
+			switch {
+			case i < nW:
+				g = i
+			case i < nW+*slice:
+				stride := (len(E) - nW) / *slice
+				if stride < 1 {
+					stride = 1
+				}
+				g = nW + ((i-nW)*stride+int(out.Seed%uint64(stride)))%(len(E)-nW)
+			default:
+				g = len(E) + i
+			}
+		}
 		var seq []op
 		var kind string
 		random := false
@@ -315,6 +545,11 @@ func main() {
 			if k == 2 && r.Bool() {
 				uu = u3
 			}
+			if r.Chance(1, 5) {
+				t = treesP[r.Intn(len(treesP))]
+				seq = append([]op{}, t...)
+				uu = uP
+			}
 			for j := 0; j < k; j++ {
 				seq = append(seq, uu[r.Intn(len(uu))])
 			}
@@ -326,7 +561,8 @@ func main() {
 		w.reset()
 		var ops, impl, canon []string
 		nontrivial := false
-		runOp := func(o op) []dumpRow {
+		var rows []dumpRow
+		runOp := func(o op) {
 			class, timedOut := w.apply(o)
 			if timedOut {
 				panic("rename did not finish within 20 s: " + canonOp(o))
@@ -334,7 +570,10 @@ func main() {
 			if class == "EOther" {
 				panic("unclassified error on " + canonOp(o))
 			}
-			rows := w.dump()
+			if o.kind == opRename {
+				out.Count(renameBucket(o, rows, class), 1)
+			}
+			rows = w.dump()
 			ops = append(ops, coqOp(o))
 			impl = append(impl, "("+coqDump(rows)+", "+class+")")
 			canon = append(canon, canonOp(o))
@@ -343,9 +582,7 @@ func main() {
 			if class == "OK" {
 				nontrivial = true
 			}
-			return rows
 		}
-		var rows []dumpRow
 		if random {
 			n := r.Range(5, 25)
 			for j := 0; j < n; j++ {
@@ -355,11 +592,11 @@ func main() {
 						existing = append(existing, row.path)
 					}
 				}
-				rows = runOp(randomOp(r, existing, j))
+				runOp(randomOp(r, existing, j))
 			}
 		} else {
 			for _, o := range retag(seq) {
-				rows = runOp(o)
+				runOp(o)
 			}
 		}
 		out.Count(fmt.Sprintf("final-entries:%02d", min(len(rows), 20)), 1)
